@@ -30,13 +30,12 @@ def blocks(tier):
         sp = S.v2_spelling_blocks()
         sp[1].C = sp[1].C[::5]
         b += sp
-        for fam in ("3.0", "3.1"):
-            b.append(Block("v%s.base_x_temporal" % fam, fam, S.v3_base_all(),
-                           S.v3_temporal_skeleton(6) + S.v3_temporal_spellings()[::5]))
-            b.append(Block("v%s.inherit" % fam, fam, S.v3_base_all(), S.v3_temporal_skeleton(2)[1:],
-                           S.v3_req_all()))
-            b.append(Block("v%s.override" % fam, fam, S.v3_modified_over_complementary_base(),
-                           S.v3_temporal_skeleton(2), S.v3_req_all()[::3]))
+        b.append(Block("v3.base_x_temporal", "3.0", S.v3_base_all(),
+                       S.v3_temporal_skeleton(6) + S.v3_temporal_spellings()[::5], twin="3.1"))
+        b.append(Block("v3.inherit", "3.0", S.v3_base_all(), S.v3_temporal_skeleton(2)[1:],
+                       S.v3_req_all(), twin="3.1"))
+        b.append(Block("v3.override", "3.0", S.v3_modified_over_complementary_base(),
+                       S.v3_temporal_skeleton(2), S.v3_req_all()[::3], twin="3.1"))
         v4 = S.v4_blocks("quick", "short", ("min", "mid"))
         v4[1].A = v4[1].A[::2]
         b += v4
@@ -47,9 +46,8 @@ def blocks(tier):
     b.append(Block("v4.single_optionals", "4.0", base4.A, body4, v4_single_optionals()))
     # v3 environmental spellings with one departure, v2 handled by the spelling blocks
     from .checks import c15
-    for fam in ("3.0", "3.1"):
-        b.append(Block("v%s.env<=1_departure" % fam, fam, S.v3_base_all()[::8], S.ABSENT,
-                       c15.v3_env_departures(1)))
+    b.append(Block("v3.env<=1_departure", "3.0", S.v3_base_all()[::8], S.ABSENT,
+                   c15.v3_env_departures(1), twin="3.1"))
     return b
 
 
